@@ -51,8 +51,21 @@ type C17Case struct {
 	UseBinary bool         `json:"use_binary"` // also compare with curlrevshell -print-ctrl-i
 }
 
+// fdSamples collects the number of open descriptors seen at each call of a
+// marker filter during one From call (reset by the caller).
+var fdSamples []int
+
+func openFDs() int {
+	des, err := os.ReadDir("/proc/self/fd")
+	if err != nil {
+		return -1
+	}
+	return len(des)
+}
+
 func markerFilter(k int) shellfuncsfile.Filter {
 	return func(_ string, r io.Reader) ([]byte, error) {
+		fdSamples = append(fdSamples, openFDs())
 		b, err := io.ReadAll(r)
 		if err != nil {
 			return nil, err
@@ -305,7 +318,16 @@ func runC17(t testing.TB, c C17Case) (key, what string, stats map[string]int) {
 			srcs = append(srcs, filepath.Join(dirs[s.Dir], s.File))
 		}
 	}
+	fdSamples = fdSamples[:0]
 	got, err := conv.From(srcs...)
+	if n := len(fdSamples); n >= 4 && fdSamples[0] >= 0 {
+		// one file is open at a time: the count seen by the filters does not
+		// grow with the number of files converted
+		if fdSamples[n-1]-fdSamples[0] >= 3 {
+			return "open-descriptors-grow", fmt.Sprintf("the number of open file descriptors grew from %d at the first converted file to %d at file %d of the same From call", fdSamples[0], fdSamples[n-1], n), stats
+		}
+		stats["fd-count-sampled"]++
+	}
 	if err != nil {
 		k := "from-error"
 		if stats["dot-matching-skipped"] > 0 {
